@@ -27,15 +27,16 @@ def setarch_prefix():
     """['setarch', '-R'] if address-space randomisation can be switched off."""
     global _SETARCH
     if _SETARCH is None:
-        _SETARCH = []
+        found = []
         exe = shutil.which('setarch')
         if exe:
             try:
                 r = subprocess.run([exe, '-R', 'true'], capture_output=True, timeout=20)
                 if r.returncode == 0:
-                    _SETARCH = [exe, '-R']
+                    found = [exe, '-R']
             except Exception:
                 pass
+        _SETARCH = found
     return _SETARCH
 
 
@@ -67,12 +68,14 @@ def worker_env(hashseed, scratch):
         'VERIF_REPO': REPO,
         'LANG': 'C.UTF-8',
         'TMPDIR': scratch.root,
+        **({'VERIF_HEAP_PROBES': '1'} if os.environ.get('VERIF_HEAP_PROBES') else {}),
     }
 
 
 def warm_pycache(scratch):
     """Compile propka + harness once so that every worker *loads* bytecode
     (identical allocation history regardless of launch order)."""
+    setarch_prefix()
     env = worker_env(0, scratch)
     env.pop('PYTHONDONTWRITEBYTECODE')
     code = ('import sim.worker, sim.refserver, sim.seams, sim.record, zipfile, pathlib\n'
@@ -97,26 +100,34 @@ def run_job(job, scratch, timeout=180, hashseed=None):
     job_hs = job.get('hashseed')
     if job_hs is not None:
         hs = job_hs
-    cmd = setarch_prefix() + [PY, '-m', 'sim.worker']
+    jobpath = job['scratch'] + '.job'
+    with open(jobpath, 'w') as fh:
+        json.dump(job, fh)
+    cmd = setarch_prefix() + [PY, '-m', 'sim.worker', jobpath]
     t0 = time.time()
     try:
-        r = subprocess.run(cmd, input=json.dumps(job), env=worker_env(hs, scratch),
-                           capture_output=True, text=True, timeout=timeout + 30, cwd='/')
-    except subprocess.TimeoutExpired:
-        shutil.rmtree(job['scratch'], ignore_errors=True)
-        return {'harness_error': 'worker timeout after %ds' % (timeout + 30),
-                'seed': job.get('seed')}
+        try:
+            r = subprocess.run(cmd, stdin=subprocess.DEVNULL, env=worker_env(hs, scratch),
+                               stdout=subprocess.DEVNULL, stderr=subprocess.PIPE, text=True,
+                               errors='replace', timeout=timeout + 30, cwd='/')
+        except subprocess.TimeoutExpired:
+            return {'harness_error': 'worker timeout after %ds' % (timeout + 30),
+                    'seed': job.get('seed')}
+        if r.returncode != 0 or not os.path.exists(jobpath + '.out'):
+            return {'harness_error': 'worker exit %s\n%s' % (r.returncode, r.stderr[-3000:]),
+                    'seed': job.get('seed')}
+        try:
+            with open(jobpath + '.out') as fh:
+                res = json.load(fh)
+        except ValueError:
+            return {'harness_error': 'unparsable worker output', 'seed': job.get('seed')}
     finally:
-        pass
-    if r.returncode != 0 or not r.stdout.strip():
         shutil.rmtree(job['scratch'], ignore_errors=True)
-        return {'harness_error': 'worker exit %s\n%s' % (r.returncode, r.stderr[-3000:]),
-                'seed': job.get('seed')}
-    try:
-        res = json.loads(r.stdout)
-    except ValueError:
-        return {'harness_error': 'unparsable worker output: ' + r.stdout[:500],
-                'seed': job.get('seed')}
+        for pth in (jobpath, jobpath + '.out'):
+            try:
+                os.unlink(pth)
+            except OSError:
+                pass
     res['wall'] = time.time() - t0
     res['hashseed'] = hs
     return res
